@@ -361,6 +361,117 @@ func c02(c *Ctx) {
 	}
 	c.RunEvalCases()
 
+	// predicate trees: random groups nested up to three deep whose leaves read the element (`@.a`, `@.b`,
+	// `@.id.Less(k)`) or the root (`$.t`, `$.u`, `$.lim.Greater(k)`), in every mixture — a group that reads
+	// only the root with a sub-group that reads the element, and the other way round — over arrays of
+	// 2..5 elements; the oracle evaluates the tree per element
+	{
+		r := c.Rng
+		type node struct {
+			leaf func(id int, a, b bool) bool
+			text string
+			op   string // "", "AND", "OR" (a group)
+			kids []*node
+		}
+		leaves := func(top bool) *node {
+			k := r.Intn(4)
+			m := 8
+			if top {
+				m = 3 // a `$` path is not accepted as a direct member of a filter (a parse error): the root is read in nested groups and in arguments
+			}
+			switch r.Intn(m) {
+			case 0:
+				return &node{text: "@.a", leaf: func(_ int, a, b bool) bool { return a }}
+			case 1:
+				return &node{text: "@.b", leaf: func(_ int, a, b bool) bool { return b }}
+			case 2:
+				return &node{text: fmt.Sprintf("@.id.Less(%d)", k), leaf: func(id int, a, b bool) bool { return id < k }}
+			case 3:
+				return &node{text: "$.t", leaf: func(_ int, a, b bool) bool { return true }}
+			case 4:
+				return &node{text: "$.u", leaf: func(_ int, a, b bool) bool { return false }}
+			case 5:
+				return &node{text: fmt.Sprintf("$.lim.Greater(%d)", k), leaf: func(_ int, a, b bool) bool { return 2 > k }}
+			case 6:
+				return &node{text: "@.a.Equal($.u)", leaf: func(_ int, a, b bool) bool { return !a }}
+			}
+			return &node{text: "@.b.NotEqual($.t)", leaf: func(_ int, a, b bool) bool { return !b }}
+		}
+		var gen func(depth int, top bool) *node
+		gen = func(depth int, top bool) *node {
+			g := &node{op: []string{"", "AND", "OR"}[r.Intn(3)]}
+			for i, m := 0, 1+r.Intn(3); i < m; i++ {
+				if depth > 0 && r.Intn(5) < 2 {
+					g.kids = append(g.kids, gen(depth-1, false))
+				} else {
+					g.kids = append(g.kids, leaves(top))
+				}
+			}
+			return g
+		}
+		var eval func(n *node, id int, a, b bool) bool
+		eval = func(n *node, id int, a, b bool) bool {
+			if n.leaf != nil {
+				return n.leaf(id, a, b)
+			}
+			for _, k := range n.kids {
+				v := eval(k, id, a, b)
+				if n.op == "OR" && v {
+					return true
+				}
+				if n.op != "OR" && !v {
+					return false
+				}
+			}
+			return n.op != "OR"
+		}
+		var render func(n *node, open, close string) string
+		render = func(n *node, open, close string) string {
+			if n.leaf != nil {
+				return n.text
+			}
+			parts := []string{}
+			if n.op != "" {
+				parts = append(parts, n.op)
+			}
+			for _, k := range n.kids {
+				parts = append(parts, render(k, "{", "}"))
+			}
+			return open + strings.Join(parts, ",") + close
+		}
+		nt := c.N(4000, 80000)
+		for it := 0; it < nt; it++ {
+			tree := gen(3, true)
+			n := 2 + r.Intn(4)
+			elems := []*D{}
+			want := []int{}
+			for i := 0; i < n; i++ {
+				a, b := r.Intn(2) == 0, r.Intn(2) == 0
+				elems = append(elems, elemC02(i, a, b))
+				if eval(tree, i, a, b) {
+					want = append(want, i)
+				}
+			}
+			doc := h.Obj("xs", h.SliceAny(elems...), "t", h.Bool(true), "u", h.Bool(false), "lim", h.FloatD(2))
+			ec := c.AddEval("$.xs"+render(tree, "[", "]"), doc, "predicate-trees", true, true)
+			w := want
+			ec.Check = func(o h.Outcome) string {
+				if o.Class != "ok" {
+					return "filter over an array must succeed; got " + o.Class
+				}
+				got, ok := idsOf(o.Val)
+				if !ok {
+					return "result is not an array of the input's elements"
+				}
+				if fmt.Sprint(got) != fmt.Sprint(w) {
+					return fmt.Sprintf("kept elements %v, the predicate is true exactly for %v", got, w)
+				}
+				return ""
+			}
+		}
+		c.RunEvalCases()
+	}
+
 	// random
 	n := c.N(12000, 200000)
 	g := &qgen{c: c}
